@@ -167,8 +167,16 @@ def step_rules(rep, prog, marker, com, rev):
     okm = am[0] == "ext" and am[1] == "numpy.argmax" and len(am[2]) == 1 and any(z == ("param", "ordered") for z in walk(am[2][0])) and \
         any(z == unk_mask for z in walk(ab(am[2][0])))
     neg_inf = [st for st in S.select("store", qname=q) if not is_state(st.base) and st.value in (("unop", "neg", ("extref", "numpy.inf")), ("unop", "-", ("extref", "numpy.inf")))]
-    rep.check("STEP.select", okm and len(neg_inf) == 1, fwhere(f, sel.node), "(x, y) = position of the largest order number among the still unknown edges (others masked by -inf)",
-              "the edge to process is not the arg-max of `ordered` over the unknown edges")
+    # the same selection without the float round trip: np.where(labelled == UNK, ordered, c) with c <= 0 (the order numbers are >= 1: ORDER.marker)
+    arg_ = ab(am[2][0]) if am[0] == "ext" and am[1] == "numpy.argmax" and len(am[2]) == 1 else None
+    where_form = arg_ is not None and arg_[0] == "ext" and arg_[1] == "numpy.where" and len(arg_[2]) == 3 and arg_[2][0] == unk_mask and arg_[2][1] == ("param", "ordered") and \
+        ((is_const(arg_[2][2]) and isinstance(arg_[2][2][1], (int, float)) and not isinstance(arg_[2][2][1], bool) and arg_[2][2][1] <= 0) or
+         arg_[2][2] in (("unop", "neg", ("extref", "numpy.inf")), ("unop", "-", ("extref", "numpy.inf"))))
+    if okm and not (len(neg_inf) == 1 or where_form) and not neg_inf:
+        rep.unk("STEP.select", fwhere(f, sel.node), "the arg-max runs over an expression of `ordered` and the unknown mask (%s): how the other entries are excluded is not read" % fmt(arg_)[:80])
+    else:
+        rep.check("STEP.select", okm and (len(neg_inf) == 1 or where_form), fwhere(f, sel.node), "(x, y) = position of the largest order number among the still unknown edges (others masked out)",
+                  "the edge to process is not the arg-max of `ordered` over the unknown edges")
     ax, ay = ab(x), ab(y)
     FULL = ("slice", ("const", None), ("const", None), ("const", None))
 
@@ -278,7 +286,8 @@ def assemble_rules(rep, prog, marker, written, flabel):
                 rev = w[0][2][0][3][1]
                 wh = w[0]
                 x_, y_ = ("elem", ("sub", wh, ("const", 0))), ("elem", ("sub", wh, ("const", 1)))
-                both = {s.idx for s in pairs} == {("tuple", (x_, y_)), ("tuple", (y_, x_))} and all(is_const(s.value, 1) for s in pairs)
+                xs_, ys_ = ("sub", wh, ("const", 0)), ("sub", wh, ("const", 1))          # the vectorised form: cpdag[fros, tos] = 1 ; cpdag[tos, fros] = 1
+                both = {s.idx for s in pairs} in ({("tuple", (x_, y_)), ("tuple", (y_, x_))}, {("tuple", (xs_, ys_)), ("tuple", (ys_, xs_))}) and all(is_const(s.value, 1) for s in pairs)
                 ok = copied and both
                 why = "compelled=%s copied=%s reversible=%s both-directions=%s" % (com, copied, rev, both)
     recognised = why != "assembly not recognised"
